@@ -283,6 +283,14 @@ func c10Exec(c *Case, generate bool) (*Violation, *execStats) {
 	rv := simrt.NewRng(simrt.Mix(c.Seed, 4))
 	vg := gen.New(&rv, c.TreeP)
 	st.logf("pkg %s tree %s", c.Pkg, gen.Describe(s.model()))
+	if c.Seed%3 == 0 {
+		// equal-valued scalar leaves share one pointer (content unchanged): a writer must
+		// store a new pointer, never write through the old one
+		ra := simrt.NewRng(simrt.Mix(c.Seed, 6))
+		if model.AliasLeafPointers(s.root, func() bool { return ra.Intn(2) == 0 }) > 0 {
+			st.Probes["tree_with_shared_leaf_pointers"]++
+		}
+	}
 	nops := c.NOps
 	if !generate {
 		nops = len(c.Ops)
@@ -354,7 +362,28 @@ func c10Draw(r *simrt.Rng, vg *gen.G, s *treeState, faults bool) (Op, bool) {
 	}
 	op.A["enc"] = enc
 	if faults && r.Intn(3) == 0 {
-		switch r.Intn(4) {
+		switch r.Intn(5) {
+		case 4: // JSON tolerance again, but the int_val does not fit the unsigned leaf's width
+			et := lt.Field.Type
+			if et.Kind() == reflect.Ptr {
+				et = et.Elem()
+			}
+			var over int64
+			switch et.Kind() {
+			case reflect.Uint8:
+				over = 1<<8 + int64(r.Intn(200))
+			case reflect.Uint16:
+				over = 1<<16 + int64(r.Intn(200))
+			case reflect.Uint32:
+				over = 1<<32 + int64(r.Intn(200))
+			}
+			if over != 0 && lt.Field.Type.Kind() == reflect.Ptr {
+				tv = &gpb.TypedValue{Value: &gpb.TypedValue_IntVal{IntVal: over}}
+				op.K = "set-bad"
+				op.A["bad"] = "int-overflow"
+				op.A["tolerate"] = "1"
+				op.A["enc"] = "tv"
+			}
 		case 0: // ill-typed payload
 			op.K = "set-bad"
 			op.A["bad"] = "illtyped"
@@ -428,6 +457,10 @@ func c10Apply(s *treeState, op Op) *Violation {
 			s.st.Faults["failing_set"]++
 			s.st.logf("set-bad %s (%s) -> error", path, op.arg("bad"))
 			return nil // nothing is promised after a failed set; the model is re-read from the tree
+		}
+		if op.arg("bad") == "int-overflow" {
+			// the value cannot be represented in the leaf's type: whatever the tree now holds, it is not v
+			return violation("C10", "accepted-unrepresentable", "C10:accepted:int-overflow:"+ctx, "SetNode(%s, %s, TolerateJSONInconsistencies) succeeded although the value does not fit the leaf's type %s", path, model.DescribeTV(tv), op.arg("gotype"))
 		}
 		// a "bad" set that was accepted still has to respect the frame condition
 		if v := c10Frame(before, after, pes, path, "", "C10:frame-after-bad:"+op.arg("bad")+":"+ctx); v != nil {
